@@ -112,8 +112,8 @@ def d_values(I, s):
     return VList(list(d.d.values()))
 
 
-def d_update(I, s, *args, **kw):
-    d = _dictdata(I, s)
+def d_update(I, _s, *args, **kw):
+    d = _dictdata(I, _s)
     for a in args:
         src = _B().dd(I, a)
         if src is not None:
@@ -168,8 +168,8 @@ def d_iter(I, s):
     return d_keys(I, s)
 
 
-def d_init(I, s, *args, **kw):
-    d_update(I, s, *args, **kw)
+def d_init(I, _s, *args, **kw):
+    d_update(I, _s, *args, **kw)
 
 
 def d_ior(I, s, other):
